@@ -420,7 +420,7 @@ def pivotLoop (db : DB) : Nat → List String → List String → Except Err (Li
     if comps.length ≤ 1 then .ok pivots
     else
       match db.find? (fun r => !(relset ++ pivots).contains r.name && r.keyNames.length > 1
-                        && (comps.filter (fun c => intersects c r.keyNames)).length > 1) with
+                        && (comps.filter (fun c => intersects r.keyNames c)).length > 1) with
       | none => .error .tsqlError
       | some r => pivotLoop db n relset (pivots ++ [r.name])
 
